@@ -67,6 +67,15 @@ func vfC06Check(c vfCfg) error {
 			return verifkit.Violf("consistent-rejected", "features are consistent by the documented rules but were rejected: %v; config=%s", err, data)
 		}
 	}
+	// an entry that names an impossible combination outright (whatever the features say) makes the configuration
+	// contradictory: it is rejected, not skipped
+	for kind, entries := range map[string][]vfCfgEntry{"include": c.Include, "exclude": c.Exclude} {
+		for i, e := range entries {
+			if why := vfEntryContradiction(e, f); why != "" {
+				return verifkit.Violf("contradictory-entry-accepted", "%s entry #%d is contradictory (%s) but the configuration was accepted with %d cases; config=%s", kind, i+1, why, len(got), data)
+			}
+		}
+	}
 	gotSet, unique := vfToSet(got)
 	if !unique {
 		return verifkit.Violf("duplicates", "parseConfig returned duplicate cases; config=%s", data)
@@ -274,4 +283,24 @@ outer:
 	en.Rec.SetExtra("space", 8*8*32*2187)
 	en.Rec.SetExtra("stride", stride)
 	en.Done(complete && stride == 1)
+}
+
+// vfEntryContradiction: the entry itself names a combination that the documented rules exclude.
+func vfEntryContradiction(e vfCfgEntry, f vfFeat) string {
+	tlsOff := e.TLS == 2 // explicitly false
+	switch {
+	case e.Version == 3 && tlsOff:
+		return "HTTP/3 without TLS"
+	case e.Protocol == 2 && (e.Version == 1 || e.Version == 3):
+		return "gRPC over an HTTP version other than 2"
+	case e.Stream == 5 && e.Version == 1:
+		return "full-duplex over HTTP/1.1"
+	case e.Stream == 4 && e.Version == 1 && !f.halfH1:
+		return "half-duplex over HTTP/1.1 without the feature"
+	case e.Certs == 1 && tlsOff:
+		return "client certificates without TLS"
+	case e.Version == 2 && tlsOff && !f.h2c:
+		return "cleartext HTTP/2 without H2C support"
+	}
+	return ""
 }
